@@ -78,7 +78,7 @@ func verifyExpandedSpec() *edt.Spec {
 			k := "Scalar.SetBytesModOrderWide(Sum(H(sha512.New, " + dom2 + "$sig[0:32], XK.compressed, $message)))"
 			want := "EdwardsPoint.IsSmallOrder(EdwardsPoint.ExpandedTripleScalarMulBasepointVartime(" + k + ", XK.negA, S, R)) ; nil"
 			if class == "eq-cofactorless" {
-				want = "bytes.Equal(CompressedEdwardsY.SetEdwardsPoint(EdwardsPoint.ExpandedDoubleScalarMulBasepointVartime(" + k + ", XK.negA, S)), $sig[0:32]) ; nil"
+				want = "bytes.Equal($sig[0:32], CompressedEdwardsY.SetEdwardsPoint(EdwardsPoint.ExpandedDoubleScalarMulBasepointVartime(" + k + ", XK.negA, S))) ; nil"
 			}
 			if out != want {
 				return fmt.Sprintf("the expanded-key verification equation or its challenge hash differs from single verification:\n      got  %s\n      want %s", out, want)
